@@ -2,11 +2,13 @@
  *   mptio/output_remote.c            (the object returned by mpt_output_remote(): next/dispatch/push/sync/await/unref)
  *   mptio/connection/connection_dispatch.c (mpt_connection_dispatch, streamWrapper, replyConnection)
  *   mptio/stream/stream_sync.c, stream_reply.c
- * over a socketpair: SOCK_DGRAM (datagram backend, mpt_outdata_*) or SOCK_STREAM with COBS framing
- * (stream backend, set up the way mpt_connection_open does it).  The harness plays the peer.
+ * Backends (second token of the case): d = SOCK_DGRAM socketpair handed over with mpt_connection_assign (mpt_outdata_*),
+ * s = stream opened with mpt_connection_open("Unix:<path>") to a listening socket of the harness (COBS framing),
+ * a = SOCK_STREAM socketpair handed over with mpt_connection_assign + default encoding through the "encoding" property.
+ * The harness plays the peer.
  *
  * Case line (same file is read by ml/c12_driver.ml):
- *   <id> con <d|s> <idlen> <op> <args> ...
+ *   <id> con <d|s|a> <idlen> <op> <args> ...
  *   tx <msghex>           the peer sends one message (id bytes + payload), nothing is called in the library
  *   dp <hacts> <code>     next(POLLIN) while the socket is readable (datagram: once) + dispatch(handler); the handler performs hacts through ev->reply and returns code
  *                         hacts: - | comma list of r<hex> (reply), rnull (reply(NULL)), r- (empty message), d (defer)
@@ -32,6 +34,7 @@
 #include <poll.h>
 #include <fcntl.h>
 #include <sys/socket.h>
+#include <sys/un.h>
 #include <sys/uio.h>
 
 /* ---- allocation tracking for reply_deferrable.c (to know which context/handle is still allocated) ---- */
@@ -274,26 +277,40 @@ static void run_con(int ntok, char **tok)
 {
 	int t = 4;
 	MPT_STRUCT(socket) sock;
+	int ar;
 	dgram = tok[2][0] == 'd';
 	idlen = vh_int(tok[3]);
-	if (socketpair(AF_UNIX, dgram ? SOCK_DGRAM : SOCK_STREAM, 0, sv) < 0) { vh_tok("?socketpair"); return; }
-	fcntl(sv[1], F_SETFL, O_NONBLOCK);
 	if (!(in = mpt_output_remote())) { vh_tok("?create"); return; }
 	od = MPT_baseaddr(out_data, in, _in);
 	out = &od->_out;
-	if (dgram) {
-		od->con.out.sock._id = sv[0];
+	if (tok[2][0] == 's') {
+		/* stream backend the way a client gets it: mpt_connection_open("Unix:<path>") to a listening socket of the peer */
+		struct sockaddr_un un;
+		char target[sizeof(un.sun_path) + 8];
+		int ls;
+		memset(&un, 0, sizeof(un));
+		un.sun_family = AF_UNIX;
+		snprintf(un.sun_path, sizeof(un.sun_path), "/tmp/c12conn_%ld.sock", (long) getpid());
+		unlink(un.sun_path);
+		if ((ls = socket(AF_UNIX, SOCK_STREAM, 0)) < 0 || bind(ls, (struct sockaddr *) &un, sizeof(un)) < 0 || listen(ls, 1) < 0) { vh_tok("?listen"); return; }
+		snprintf(target, sizeof(target), "Unix:%s", un.sun_path);
+		ar = mpt_connection_open(&od->con, target, 0);
+		sv[1] = ar < 0 ? -1 : accept(ls, 0, 0);
+		close(ls);
+		unlink(un.sun_path);
+		if (ar < 0 || sv[1] < 0) { vh_tok("?open%d", ar); return; }
+		if (MPT_socket_active(&od->con.out.sock) || !od->con.out.buf._buf) { vh_tok("?open-backend"); return; }
+		sv[0] = _mpt_stream_fread(&((MPT_STRUCT(stream) *) od->con.out.buf._buf)->_info);    /* only polled by the harness */
 	} else {
-		/* what mpt_connection_open() does with a connected stream socket */
-		MPT_STRUCT(stream) s = MPT_STREAM_INIT, *srm;
+		/* a connected socket handed over: mpt_connection_assign (dups the descriptor);
+		 * 'a' = stream socket, then the default encoding (COBS) through the "encoding" property */
+		if (socketpair(AF_UNIX, dgram ? SOCK_DGRAM : SOCK_STREAM, 0, sv) < 0) { vh_tok("?socketpair"); return; }
 		sock._id = sv[0];
-		if (mpt_stream_dopen(&s, &sock, MPT_STREAMFLAG(RdWr) | MPT_STREAMFLAG(Buffer)) < 0) { vh_tok("?dopen"); return; }
-		s._wd._enc = mpt_message_encoder(MPT_ENUM(EncodingCobs));
-		s._rd._dec = mpt_message_decoder(MPT_ENUM(EncodingCobs));
-		if (!(srm = malloc(sizeof(*srm)))) { vh_tok("?alloc"); return; }
-		*srm = s;
-		od->con.out.buf._buf = (void *) srm;
+		if ((ar = mpt_connection_assign(&od->con, &sock)) < 0) { vh_tok("?assign%d", ar); return; }
+		if (dgram ? !MPT_socket_active(&od->con.out.sock) : (MPT_socket_active(&od->con.out.sock) || !od->con.out.buf._buf)) { vh_tok("?assign-backend"); return; }
+		if (!dgram && (ar = mpt_connection_set(&od->con, "encoding", 0)) < 0) { vh_tok("?encoding%d", ar); return; }
 	}
+	fcntl(sv[1], F_SETFL, O_NONBLOCK);
 	/* the only place an id width comes from (examples/io/mclient.c does the same) */
 	od->con.out._idlen = idlen;
 	nh = 0; ntag = 0; closed = 0; wtot = 0;
@@ -384,6 +401,7 @@ static void run_con(int ntok, char **tok)
 	}
 	if (!closed) in->_vptr->meta.unref((void *) in);
 	close(sv[1]);
+	if (tok[2][0] != 's') close(sv[0]);
 }
 static void run_case(int ntok, char **tok)
 {
